@@ -1,3 +1,6 @@
 import RaftModel.Basic
 import RaftModel.Inflights
 import RaftModel.Storage
+import RaftModel.Quorum
+import RaftModel.ConfChange
+import RaftModel.Proto
